@@ -168,6 +168,9 @@ fn replay_one(toks: &[&str]) -> String {
             let scratch = common::scratch_root().join("c17r");
             std::fs::create_dir_all(&scratch).unwrap();
             let r = c17::observe(&toks[1..], &scratch);
+            common::rm_rf(&scratch);
+            r
+        }
         "C19" => {
             let scratch = c19::scratch();
             let r = c19::observe(&toks[1..], &scratch, 100);
